@@ -103,10 +103,18 @@ func (s *violSink) Violate(sig, at string, _ interface{}, exp, obs string) {
 
 func runStorageHistory(c *violSink, caseID string, dir string, ops []stOp, input interface{}) (string, bool) {
 	var res []string
+	recovered := 0
 	open := func() (util.Storage, db.Database) {
 		st, err := util.NewFileStorage(dir)
 		if err != nil {
-			fatal("NewFileStorage(%s): %v", dir, err)
+			// the operations before damaged the directory tree the store lives in (a key that names the directory or its
+			// parent was deleted / written as a file): reported, and the history goes on in a directory of its own
+			c.Violate("the storage directory cannot be opened again after operations on keys that name the directory or its parent", caseID, input, "opens", err.Error())
+			recovered++
+			dir = filepath.Join(filepath.Dir(filepath.Dir(filepath.Dir(dir))), fmt.Sprintf("%s-recovered%d", filepath.Base(filepath.Dir(filepath.Dir(dir))), recovered), "p", "store")
+			if st, err = util.NewFileStorage(dir); err != nil {
+				fatal("NewFileStorage(%s): %v", dir, err)
+			}
 		}
 		return st, db.NewDatabaseWithStorage(st)
 	}
@@ -336,6 +344,10 @@ func genKey(r *rand.Rand) []byte {
 		return append(word(1+r.Intn(8)), []string{".txt", ".dat", ".t", "xt"}[r.Intn(4)]...)
 	case 7: // prefix / extension of another typical key
 		return []byte([]string{"a", "ab", "abc", "a.b", "ab.txt", "b.txt"}[r.Intn(6)])
+	case 8: // names of the storage directory itself and of its parent (also with the ':' that is stripped): no keys
+		if r.Intn(3) == 0 {
+			return []byte([]string{"", ".", "..", ":", ".:", ":.:.", "::"}[r.Intn(7)])
+		}
 	}
 	return word(1 + r.Intn(10))
 }
@@ -399,7 +411,7 @@ func genStorageHistory(r *rand.Rand) []stOp {
 	}
 	if r.Intn(4) == 0 && nk >= 2 { // an aliasing pair: "x:y" and "xy"
 		keys[1] = []byte(strings.Replace(string(keys[0]), ":", "", -1))
-		if !bytes.Contains(keys[0], []byte(":")) && len(keys[0]) < 200 {
+		if !bytes.Contains(keys[0], []byte(":")) && len(keys[0]) < 200 && len(keys[0]) > 0 {
 			keys[0] = append([]byte{keys[0][0], ':'}, keys[0][1:]...)
 		}
 	}
@@ -468,7 +480,9 @@ func genStorageHistory(r *rand.Rand) []stOp {
 				suf = []byte(".entity")
 			case 3:
 				kk := []byte(strings.Replace(string(k), ":", "", -1))
-				suf = kk[r.Intn(len(kk)):]
+				if len(kk) > 0 {
+					suf = kk[r.Intn(len(kk)):]
+				}
 			case 4:
 				suf = []byte(".tmp")
 			default:
@@ -569,6 +583,7 @@ func c18Corpus() []struct {
 func checkC18(c *Ctx) {
 	storageFaults(c, "C18")
 	c18RelativePath(c)
+	c18DirectoryKeys(c)
 	c18ConcurrentSet(c)
 	c18TempSpellings(c)
 	c18ColonAlias(c)
